@@ -81,6 +81,21 @@ def main():
         print(repo, "not clean, refusing")
         return 2
     rc, o = sh("git -C %s apply %s" % (repo, os.path.join(out, "patch.diff")))
+    if rc != 0 and os.path.exists(os.path.join(wt, "rebased.diff")):
+        # the change was written against an earlier HEAD of /repo (a fix: commit touched the same lines since): a version re-based
+        # by hand is evaluated, the original is kept next to it; the demonstration must fail with the re-based change as well
+        shutil.copy(os.path.join(out, "patch.diff"), os.path.join(out, "patch.orig.diff"))
+        shutil.copy(os.path.join(wt, "rebased.diff"), os.path.join(out, "patch.diff"))
+        rc, o = sh("git -C %s apply %s" % (repo, os.path.join(out, "patch.diff")))
+        if rc == 0:
+            rcd, od = sh("/venv/bin/python %s" % os.path.join(out, "demo.py"), cwd=repo, env=cenv if repo != "/repo" else env, timeout=900)
+            meta["rebased"] = True
+            meta["demo_exit_with_rebased_change"] = rcd
+            print("re-based patch applies; demo with re-based change:", rcd)
+            if rcd == 0:
+                sh("git -C %s checkout -- ." % repo)
+                print("the demonstration passes with the re-based change: not kept")
+                return 2
     if rc != 0:
         print("patch does not apply to", repo, ":", o)
         return 2
